@@ -828,6 +828,16 @@ class FxFn(IoFn):
         return self.ev(getattr(e, head), env, ks, ("bool",) if e.kind == "if" else None)
 
     def binary(self, e, env, k, want):
+        if e.op == "+":
+            # `n + 1` / `1 + n` on a non-negative counter of a signed type: overflow at 2^(w-1)
+            l, r = strip(e.l), strip(e.r)
+            for a, b in ((l, r), (r, l)):
+                pa = self.path_of(a) if a.kind in ("var", "field") else None
+                if pa in env and env[pa].ty[0] == "int" and env[pa].ty[1] and env[pa].ty[1][0] == "i" and b.kind == "lit":
+                    t = self.tmp()
+                    w = rs.WIDTH[env[pa].ty[1]] - 1
+                    args = (env[pa].lean, str(b.v)) if a is l else (str(b.v), env[pa].lean)
+                    return ("bind", t, "Rs.add %d %s %s" % ((w,) + args), k(t, env[pa].ty, env))
         if e.op in ("&&", "||") and not fx_effectful(e.r):
             return self.ev_list([e.l, e.r], env,
                                 lambda vs, e2: k("(%s %s %s)" % (vs[0][0], e.op, vs[1][0]), ("bool",), e2),
